@@ -350,14 +350,11 @@ func revolveSubject(rng *rand.Rand) *subject {
 	// demanded in profile coordinates (a perturbation of p cannot cross x = 0)
 	pmn, pmx := prof.s.Min(), prof.s.Max()
 	h2 := 1e-9 * (pmx.Sub(pmn).Norm() + linf2(pmn) + linf2(pmx))
-	stable2 := func(q C2) bool {
-		return prof.s.Contains(q) && prof.s.Contains(model2d.XY(q.X+h2, q.Y)) && prof.s.Contains(model2d.XY(q.X-h2, q.Y)) &&
-			prof.s.Contains(model2d.XY(q.X, q.Y+h2)) && prof.s.Contains(model2d.XY(q.X, q.Y-h2))
-	}
+	st := func(q C2) bool { return stable2(prof.s.Contains, q, h2) }
 	def := func(p C3) bool {
 		y := dot3(p, u)
 		x := norm3(sub3(p, mul3(u, y)))
-		return stable2(model2d.XY(x, y)) || stable2(model2d.XY(-x, y))
+		return st(model2d.XY(x, y)) || st(model2d.XY(-x, y))
 	}
 	api := "model3d.RevolveSolid"
 	if kind == "negative-side" {
